@@ -11,15 +11,15 @@ THEOREMS = {
             "Lemmas.Rev.loaded_of_load", "Lemmas.Rev.upgradeNeeds_spec", "Lemmas.Rev.allDownOf_mem_iff_parents",
             "Lemmas.Rev.mem_ancSet_iff"],
     "C02": ["C02.plan", "C02.plan_of_set", "C02.target_safe", "C02.reach_inv", "C02.mem_downgradeSet",
-            "Lemmas.Rev.topoSort_ok", "Lemmas.Rev.loaded_of_load"],
+            "Lemmas.Rev.topoSort_ok", "Lemmas.Rev.loaded_of_load", "C02.downgradeOk_sound"],
     "C03": ["C03.step", "C03.upgrade_run", "C03.downgrade_run", "C03.run_up", "C03.run_down", "C03.init",
             "C03.all_applied_rows", "C03.none_applied_rows", "C03.applied_iff_requires",
-            "Lemmas.Rev.step_up", "Lemmas.Rev.step_down", "Lemmas.Rev.mem_unmergeTo", "Lemmas.Rev.mem_mergeFrom"],
+            "Lemmas.Rev.step_up", "Lemmas.Rev.step_down", "Lemmas.Rev.mem_unmergeTo", "Lemmas.Rev.mem_mergeFrom", "C03.rowsOk_sound", "C03.traceOk_sound"],
     "C05": ["C05.single", "C05.single_gen", "C05.several", "C05.base", "C05.stamp_one", "C05.stamp_several", "C05.stamp_heads",
             "C05.stamp_base", "C05.stampRevs_ids", "C05.stampOk_sound", "C05.stamp_fold", "C05.sharesLineage_iff",
             "Lemmas.Rev.fold_ok", "Lemmas.Rev.loaded_of_load"],
     "C15": ["C15.cyclic_rejected", "C15.detect_rejects_cycle", "C15.acyclic_accepted", "C15.acyclic_loads",
-            "C15.acyclic_no_cycle", "C15.heads_bases", "C15.closure_total",
+            "C15.acyclic_no_cycle", "C15.heads_bases", "C15.closure_total", "C15.hasCycle_sound",
             "Lemmas.Rev.peel_of_ranked", "Lemmas.Rev.peel_keeps_cycle", "Lemmas.Rev.ranked_of_peel",
             "Lemmas.Rev.detect_ok_of_ranked", "Lemmas.Rev.mem_closureOf_iff"],
     "C16": ["C16.full_id", "C16.plain_sound", "C16.prefix_unique_partial", "C16.prefix_unique_counterexample",
